@@ -1,6 +1,7 @@
 package ledger
 
 import (
+	"os"
 	"bytes"
 	"context"
 	"crypto/sha256"
@@ -120,6 +121,9 @@ func (m *Model) Check(e, res string) []common.Violation {
 	if m.on("C09") && m.spare != nil && strings.HasPrefix(m.synced, "ok=") {
 		// a node that was marked as loaded after a sync is a node like any other: the structural invariant holds on it
 		if sv := mkView(m.spare.Book.VerifSnapshot()); sv.S.DagLoaded {
+			if os.Getenv("LEDGER_DEBUG") != "" {
+				fmt.Fprintf(os.Stderr, "C09 joined: live=%d stored=%d srcStored=%d viol=%d\n", len(sv.live), len(sv.stored), len(post[m.syncSrc].stored), len(m.checkC09(len(m.nodes), nil, sv, e, res)))
+			}
 			for _, v := range m.checkC09(len(m.nodes), nil, sv, e, res) {
 				v.Key += "/joined-node"
 				out = append(out, v)
